@@ -795,7 +795,19 @@ def str_method(ctx, fr, path, sv, name, args, kwargs, node):
         c = ctx.as_str(path, args[0])
         cl = smt.str_lit(c)
         if cl is None or len(cl) == 0:
-            raise Unsupported("strip with symbolic char set")
+            # symbolic character set: the result is an uninterpreted function of (string, set) of which only
+            # "lstrip gives a suffix / rstrip a prefix / strip a contiguous piece of the receiver" is known (sound, weak)
+            f = ctx.func(f"{name}_sym", smt.StrS, smt.StrS, smt.StrS)
+            r = f(s, c)
+            path.note(f"str.{name}(chars) with a symbolic character set: result only known to be a piece of the receiver")
+            if name == "lstrip":
+                path.assume(z3.SuffixOf(r, s))
+            elif name == "rstrip":
+                path.assume(z3.PrefixOf(r, s))
+            else:
+                path.assume(z3.Contains(s, r))
+            yield path, _strv(r)
+            return
         cls_re = z3.Union(*[z3.Re(ch) for ch in cl]) if len(cl) > 1 else z3.Re(cl)
         star = z3.Star(cls_re)
         res = s
